@@ -8,6 +8,13 @@ def main():
     if not ctx.build_harness():
         print("setup: harness build failed"); return 1
     ctx.regen(ALL_MODULES)
+    # the library root imports every property module, so that one `lake build` elaborates all theorems
+    import glob, os
+    props = sorted(os.path.basename(f)[:-5] for f in glob.glob(os.path.join(core.LEAN, "AvoVerif", "Props", "*.lean")))
+    root = "".join(f"import AvoVerif.Props.{m}\n" for m in props)
+    rp = os.path.join(core.LEAN, "AvoVerif.lean")
+    if not os.path.exists(rp) or open(rp).read() != root:
+        open(rp, "w").write(root)
     ok, out = ctx.lake([], timeout=7200)
     if not ok:
         # A failing property module on the current tree is reported by its check; the driver must exist.
